@@ -172,7 +172,8 @@ def conclude(prop_id, tier, seed, *, states, transitions, executions, nontrivial
         distinct_nontrivial=int(nontrivial),
         distinct_outcomes=int(outcomes),
         rule=rule,
-        samples=samples[:8] if samples else [],
+        samples=(samples[:8] if samples else
+                 ([dict(note="no execution completed without a violation; see the replay files")] if fresh else [])),
         exhaustive=bool(exhaustive),
         bounds=bounds,
         caps_hit=caps or [],
@@ -189,7 +190,11 @@ def conclude(prop_id, tier, seed, *, states, transitions, executions, nontrivial
           % (prop_id, tier, seed, states, transitions, executions, nontrivial,
              outcomes, exhaustive, wall, len(fresh),
              sum(v[1] for v in known_hits.values())))
-    if not ok or nondeterministic:
+    if nondeterministic:
+        return 2
+    if fresh:
+        return 1            # confirmed violations are the verdict, however little else could be explored
+    if not ok:
         return 2
     if nontrivial == 0 or executions == 0:
         print("ENGINE-ERROR: vacuous exploration (no non-trivial execution)")
